@@ -117,6 +117,9 @@ func c03Grid() []string {
 	// letter whose Unicode lower-casing is an ASCII letter
 	out = append(out, "http://a.example/a/b", "http://a.example/b", "http://a.example/a/%2E%2E/../b", "http://a.example/a/../%2e%2e/b", "http://a.example/x/a/%2e/../b", "http://a.example/x/b",
 		"http://\u0130stanbul.example/a", "http://istanbul.example/a", "http://ISTANBUL.example/a", "http://\u212aelvin.example/a", "http://kelvin.example/a")
+	// a path that ends in a dot segment keeps its trailing slash (RFC 3986 5.2.4:
+	// "/a/." is "/a/", not "/a")
+	out = append(out, "http://a.example/a/.", "http://a.example/a/b/..", "http://a.example/a/%2E", "http://a.example/a/b/%2e%2e", "http://a.example/a/", "http://a.example/a", "http://a.example/a/..", "http://a.example/", "http://a.example/a/./", "http://a.example/a/b/../", "http://a.example/a/b/.", "http://a.example/a/b/", "http://a.example/a/b/../..", "http://a.example/.", "http://a.example/..")
 	// IPv6 literals with a zone
 	out = append(out, "http://[fe80::1%25eth0]/a", "http://[fe80::1%25eth0]/a/../a", "http://[FE80::1%25eth0]:80/%61#x", "http://[fe80::1%25eth1]/a", "http://[fe80::2%25eth0]/a", "http://[fe80::1%25eth0]:8080/a", "http://[fe80::1%25eth0]/b")
 	// drop what Go cannot parse / build a request for
@@ -217,7 +220,8 @@ func TestC03Bulk(t *testing.T) {
 			}
 		}
 		st = append(st, "http://a.example/a", "https://a.example/a", "http://b.example/a", "http://a.example/a?user=1",
-			"http://a.example/a/b", "http://a.example/b", "http://a.example/a/%2E%2E/../b", "http://a.example/a/../%2e%2e/b", "http://a.example/x/a/%2e/../b", "http://a.example/x/b")
+			"http://a.example/a/b", "http://a.example/b", "http://a.example/a/%2E%2E/../b", "http://a.example/a/../%2e%2e/b", "http://a.example/x/a/%2e/../b", "http://a.example/x/b",
+			"http://a.example/a/.", "http://a.example/a/b/..", "http://a.example/a/%2E", "http://a.example/a/b/%2e%2e", "http://a.example/a/", "http://a.example/a", "http://a.example/a/..", "http://a.example/", "http://a.example/a/./", "http://a.example/a/b/../", "http://a.example/a/b/.", "http://a.example/a/b/", "http://a.example/a/b/../..", "http://a.example/.", "http://a.example/..")
 		cases = append(cases, c03Case{URLs: fam}, c03Case{URLs: hp}, c03Case{URLs: st})
 	}
 	base := len(cases)
